@@ -878,7 +878,8 @@ func C11(c *core.Ctx) {
 	}
 	keep := 40
 	if c.Thorough() {
-		keep = 1
+		// the family has some 538 000 layouts; the thorough tier binds one in four (the model itself is explored in full)
+		keep = 4
 	}
 	cases := layEnumerate(c, "MCSelectionCarry.cfg", keep, nil)
 	runs := layRunAll(c, "c11", cases)
